@@ -243,6 +243,7 @@ func diff(want, got map[triple]bool) string {
 func (p *pipeline) settle(want map[triple]bool, h0, k0 uint64) (string, bool) {
 	deadline := time.Now().Add(8 * time.Second)
 	sawQuiet := false
+	var equalSince time.Time
 	for {
 		quiet := false
 		if p.poll > 0 {
@@ -258,6 +259,17 @@ func (p *pipeline) settle(want map[triple]bool, h0, k0 uint64) (string, bool) {
 			if d == "" {
 				return "", true
 			}
+		}
+		// a watcher that never parks (e.g. busy polling) is not this
+		// property's business: a table that has been right for a while is accepted
+		if d == "" {
+			if equalSince.IsZero() {
+				equalSince = time.Now()
+			} else if time.Since(equalSince) > 400*time.Millisecond {
+				return "", sawQuiet
+			}
+		} else {
+			equalSince = time.Time{}
 		}
 		if time.Now().After(deadline) {
 			return d, sawQuiet
